@@ -56,6 +56,28 @@ Theorem c08_any_assertion_step : forall ad_bytes c q st d script st' tr res id n
   unique_ids st' /\ exists n', stored_counter st' id = Some n' /\ n <= n' <= n + 1.
 Proof. exact assert_any_monotone. Qed.
 
+(** *** the counter in the source as it is now (lists regenerated from passkey-authenticator/src on every run): the only
+    arithmetic in any ceremony is the single [saturating_add(1)] of an assertion; it comes before the one store update,
+    which comes before the authenticator data that reports the value is built, which comes before the signature; a
+    registration starts at zero; U2F authentication does no arithmetic at all *)
+From Coq Require Import String.
+From PK Require Auth.SkeletonFacts Auth.gen.Skeleton Auth.OrderList.
+Theorem c08_counter_in_source :
+ (OrderList.before "SatAdd1" "Update" Skeleton.SRC_GET_ASSERTION = true
+  /\ OrderList.before "Update" "NewAuthData" Skeleton.SRC_GET_ASSERTION = true
+  /\ OrderList.before "NewAuthData" "Sign" Skeleton.SRC_GET_ASSERTION = true
+  /\ count_occ string_dec Skeleton.SRC_GET_ASSERTION "SatAdd1" = 1%nat
+  /\ count_occ string_dec Skeleton.SRC_GET_ASSERTION "Update" = 1%nat
+  /\ OrderList.first_pos "Arith" Skeleton.SRC_GET_ASSERTION = None /\ OrderList.first_pos "Arith" Skeleton.SRC_MAKE_CREDENTIAL = None
+  /\ OrderList.first_pos "Arith" Skeleton.SRC_U2F_REGISTER = None /\ OrderList.first_pos "Arith" Skeleton.SRC_U2F_AUTHENTICATE = None
+  /\ OrderList.first_pos "Arith" Skeleton.SRC_CHECK_USER = None
+  /\ OrderList.first_pos "SatAdd1" Skeleton.SRC_MAKE_CREDENTIAL = None /\ OrderList.first_pos "SatAdd1" Skeleton.SRC_U2F_AUTHENTICATE = None
+  /\ OrderList.before "CounterStart0" "NewAuthData" Skeleton.SRC_MAKE_CREDENTIAL = true
+  /\ OrderList.before "NewAuthData" "Save" Skeleton.SRC_MAKE_CREDENTIAL = true)%string.
+Proof. exact SkeletonFacts.source_counter_facts. Qed.
+Theorem c08_assertion_source_is_the_modelled_one : Skeleton.SRC_GET_ASSERTION = SkeletonFacts.EXP_GET_ASSERTION.
+Proof. exact SkeletonFacts.src_get_assertion_order. Qed.
+
 Print Assumptions c08_counter_next_below_max.
 Print Assumptions c08_counter_never_decreases.
 Print Assumptions c08_registration.
@@ -63,3 +85,5 @@ Print Assumptions c08_assertion_step.
 Print Assumptions c08_reachable_stores.
 Print Assumptions c08_history_monotone.
 Print Assumptions c08_any_assertion_step.
+Print Assumptions c08_counter_in_source.
+Print Assumptions c08_assertion_source_is_the_modelled_one.
